@@ -172,8 +172,9 @@ TEXT["C09"] = dict(engine="schedmc", design_ref="DESIGN.md 6 C09",
     technique="stateless preemption-bounded schedule exploration (iterative context bounding) of real threads under a cooperative scheduler + free-running ThreadSanitizer pass",
     level="model checking of the implementation: 2-3 real threads issuing 1-2 records of different length and severity through "
           "logger<stdout_mt> and logger<StdErrThreaded> are serialised at every interposed pthread_mutex_lock/unlock/trylock and at every byte and "
-          "flush phase of a deliberately non-thread-safe stream buffer; every schedule with at most k preemptions (k iterated 0..2/3, unbounded "
-          "for two threads in the thorough tier) runs to completion and its output must be a concatenation of whole records, each exactly "
+          "flush phase of a deliberately non-thread-safe stream buffer; every schedule with at most k preemptions (k iterated 0..3), and - "
+          "without any bound - every interleaving up to equality of the whole program state (state hashing at the choice points; all 90 / "
+          "24 record orders of 3x2 / 4x1 threads are reached), and every schedule as a first use in a fresh process, runs to completion and its output must be a concatenation of whole records, each exactly "
           "once, per-thread order kept, the buffer never entered by two threads, no deadlock; a ThreadSanitizer build of the same bodies runs free",
     note="trusted: the scheduler in engine/sched.c (uninstrumented, raw futex hand-off), the owner-table model of the mutexes, sequential "
          "consistency between scheduling points; the TSan pass is a detector, not part of the exhaustive claim")
